@@ -23,9 +23,14 @@ def run(c):
     c.rule = ("random histories (3-12 calls) of Engine.Run over a pool of 6 type-checked files x 2 TruncateLen settings on one engine "
               "with a shared / nil / two pooled RunnerStates; a third of the calls have a Report callback that panics at a random "
               "report, a quarter run on a state into which stale left-overs were put (node path, dead flag, current function, "
-              "operand stack, capture preset), a fifth repeat the previous call; rules use Deadcode, Parent(), Contains, typed "
-              "pattern variables, a custom bytecode filter, lists, ReportData.Func; every report is one evaluation; a case is "
-              "non-trivial and distinct by (state kind, dirty?, panicking?, previous call's file = this file?, previous call panicked?)")
+              "operand stack + variadic-length register, capture preset), a fifth repeat the previous call; the rule set is one of "
+              "several generated variants: fixed groups (Deadcode, Parent(), typed pattern variables, lists, ReportData.Func) + "
+              "Contains() rules whose outer pattern binds none / some / all of the sub-pattern's variables (binder and free-variable "
+              "rules for the same name, random order) + custom bytecode filters with fmt.Sprintf calls of arity 0-3 inside "
+              "if / else / && / || / loop / helper-function positions followed by a call of the same or another arity; plus, per "
+              "(variant, file), the whole-file run vs. runs over each top-level declaration alone; every report is one evaluation; "
+              "a case is non-trivial and distinct by (state kind, dirty?, panicking?, previous call's file = this file?, previous "
+              "call panicked?), by generated rule kind that reported in a history, and by (rule kind, file) in the locality runs")
     c.trusted += walkerlib.TRUSTED + [
         "go2coq runnerstate reader (struct inventories, newRulesRunner literal, Reset body, per-match reset shapes)",
         "gogrep resets its own matcher state in MatchNode (Section-level assumption; validated only by the history runs)",
@@ -56,16 +61,41 @@ def run(c):
             o = json.loads(line)
             if o["k"] == "rules":
                 c.coverage["history_rule_groups"] = o["reports"]
-                if o["reports"] < 8:
-                    c.obligation("harness:history-rules", False, "rule groups dropped: " + str(o.get("err")))
+                c.coverage["history_rule_set_variants"] = c.coverage.get("history_rule_set_variants", 0) + o.get("variant", 0)
+                kinds = o.get("kinds") or {}
+                for k, v in kinds.items():
+                    c.coverage["generated_rules:" + k.split("/same")[0]] = c.coverage.get("generated_rules:" + k.split("/same")[0], 0) + v
+                fam = set(k.split("/")[0] + "/" + k.split("/")[1] for k in kinds if "/" in k)
+                if o["reports"] < 8 or not {"contains/binder", "contains/free-variable"} <= fam or not any(k.startswith("variadic/") for k in fam):
+                    c.obligation("harness:history-rules", False, "rule groups dropped: %s; kinds %s" % (o.get("err"), sorted(kinds)))
                 continue
             if o.get("err"):
                 c.obligation("harness-run:history", False, o["err"])
                 continue
+            if o["k"] == "local":
+                # locality inside one run: whole-file run vs. runs over each top-level declaration alone
+                c.count(max(o["reports"], 1))
+                for k, v in (o.get("kinds") or {}).items():
+                    if k != "fixed":
+                        c.nontriv(("local", k.split("/same")[0], o["calls"][0]["file"]))
+                c.coverage["locality_runs"] = c.coverage.get("locality_runs", 0) + 1
+                if o.get("mismatch") and o["mismatch"].startswith("the run on a fresh"):
+                    c.fail("oracle", "Run of a loaded rule set over a type-checked file fails inside the engine: " + o["mismatch"],
+                           input={"rules": o.get("rules"), "file": (o.get("srcs") or [None])[0], "seed": seed, "variant": o.get("variant")},
+                           expected="a report sequence", observed=o["mismatch"])
+                elif o.get("mismatch"):
+                    c.fail("oracle", "the reports inside a top-level declaration depend on the declarations visited before it in the same run: " + o["mismatch"],
+                           input={"rules": o.get("rules"), "file": (o.get("srcs") or [None])[0], "seed": seed, "variant": o.get("variant")},
+                           expected="the run over the whole file reports, declaration by declaration, what a run over a file with only that declaration reports",
+                           observed=o["mismatch"])
+                continue
             n += 1
             c.count(max(o["reports"], 1))
+            for k in (o.get("kinds") or {}):
+                if k != "fixed":
+                    c.nontriv(("reported-in-history", k))
             prev = None
-            for call in o["calls"]:
+            for call in (o.get("calls") or []):
                 key = (call["state"] if call["state"] in ("shared", "nil") else "pool", call["dirty"], call["panic_at"] >= 0,
                        prev is not None and prev["file"] == call["file"], prev is not None and prev["panic_at"] >= 0)
                 if prev is not None:
@@ -73,10 +103,11 @@ def run(c):
                 prev = call
             if o.get("mismatch"):
                 c.fail("oracle", "a Run call reports differently than the same call on a fresh engine and state: " + o["mismatch"],
-                       input={"history": o["calls"], "rules": o.get("rules"), "files": o.get("srcs"), "seed": seed, "history_index": o["history"]},
+                       input={"history": o.get("calls"), "rules": o.get("rules"), "files": o.get("srcs"), "seed": seed, "history_index": o["history"],
+                              "variant": o.get("variant")},
                        expected="identical report sequence (up to the callback panic)", observed=o["mismatch"])
             elif len(c.samples) < 4:
-                c.sample({"history": o["calls"][:6], "reports": o["reports"], "callback_panics": o["panics"], "groups": o.get("groups")})
+                c.sample({"history": (o.get("calls") or [])[:6], "reports": o["reports"], "callback_panics": o["panics"], "groups": o.get("groups")})
         if rc != 0 or n == 0:
             c.obligation("harness-run:history", False, out[-2000:])
         c.coverage["histories"] = c.coverage.get("histories", 0) + n
